@@ -93,6 +93,13 @@ def write_inputs(rng, fmt, work):
 
     def dump(arr, name, this_fmt):
         path = os.path.join(work, "in", name)
+        out = dump_(arr, path, this_fmt)
+        if rng.random() < .12:
+            txt = open(path, newline="").read()  # last line without a line terminator
+            open(path, "w", newline="").write(txt.rstrip("\r\n"))
+        return out
+
+    def dump_(arr, path, this_fmt):
         if this_fmt == "tum":
             open(path, "w").write(rm.write_tum_text(arr["t"], arr["p"], gen.quats_of(arr["R"])))
             t, p, R, _ = rm.parse_tum(open(path).read())
